@@ -371,6 +371,37 @@ fn aligned_rounding_tf(ctx: &mut Ctx, emin: i64, emax: i64) -> (Dd, f64) {
     (a, f)
 }
 
+/// Every reference / value spelling of a binary operator or an op-assign is claimed by the
+/// properties ("every form of ..."): the spelling is chosen per case from the operand bits (no
+/// generator word is consumed, so the operand distribution is unchanged).
+macro_rules! spelled {
+    ($sp:expr, $a:expr, $op:tt, $b:expr) => {
+        match $sp & 3 {
+            0 => $a $op $b,
+            1 => &$a $op $b,
+            2 => $a $op &$b,
+            _ => &$a $op &$b,
+        }
+    };
+}
+macro_rules! spelled_assign {
+    ($sp:expr, $a:expr, $op:tt, $b:expr) => {{
+        let mut t = $a;
+        if ($sp >> 2) & 1 == 0 {
+            t $op $b;
+        } else {
+            t $op &$b;
+        }
+        t
+    }};
+}
+fn spelling(ctx: &mut Ctx, x: f64, y: f64, z: f64) -> u64 {
+    let h = (x.to_bits() ^ y.to_bits().rotate_left(21) ^ z.to_bits().rotate_left(43)).wrapping_mul(0x9e37_79b9_7f4a_7c15);
+    let sp = h >> 59;
+    ctx.label(["spelling:a.b", "spelling:&a.b", "spelling:a.&b", "spelling:&a.&b"][(sp & 3) as usize]);
+    sp
+}
+
 #[derive(Clone, Copy, PartialEq)]
 enum Form {
     TT,
@@ -408,19 +439,12 @@ fn c03_op(ctx: &mut Ctx, sub: bool, form: Form) {
             note_dd(ctx, "b", b);
             exact = if sub { a.big().sub(&b.big()) } else { a.big().add(&b.big()) };
             let (ta, tb) = (a.tf(), b.tf());
+            let sp = spelling(ctx, a.hi, b.hi, a.lo);
             r = run_tf(ctx, opname, || match (sub, form) {
-                (false, Form::TT) => ta + tb,
-                (true, Form::TT) => ta - tb,
-                (false, _) => {
-                    let mut t = ta;
-                    t += tb;
-                    t
-                }
-                (true, _) => {
-                    let mut t = ta;
-                    t -= tb;
-                    t
-                }
+                (false, Form::TT) => spelled!(sp, ta, +, tb),
+                (true, Form::TT) => spelled!(sp, ta, -, tb),
+                (false, _) => spelled_assign!(sp, ta, +=, tb),
+                (true, _) => spelled_assign!(sp, ta, -=, tb),
             });
             ctx.set_nontrivial(a.lo != 0.0 && b.lo != 0.0);
             let m = a.big().abs().max(b.big().abs());
@@ -441,21 +465,14 @@ fn c03_op(ctx: &mut Ctx, sub: bool, form: Form) {
                 (true, _) => a.big().sub(&bf),
             };
             let ta = a.tf();
+            let sp = spelling(ctx, a.hi, f, a.lo);
             r = run_tf(ctx, opname, || match (sub, form) {
-                (false, Form::TF) => ta + f,
-                (true, Form::TF) => ta - f,
-                (false, Form::FT) => f + ta,
-                (true, Form::FT) => f - ta,
-                (false, _) => {
-                    let mut t = ta;
-                    t += f;
-                    t
-                }
-                (true, _) => {
-                    let mut t = ta;
-                    t -= f;
-                    t
-                }
+                (false, Form::TF) => spelled!(sp, ta, +, f),
+                (true, Form::TF) => spelled!(sp, ta, -, f),
+                (false, Form::FT) => spelled!(sp, f, +, ta),
+                (true, Form::FT) => spelled!(sp, f, -, ta),
+                (false, _) => spelled_assign!(sp, ta, +=, f),
+                (true, _) => spelled_assign!(sp, ta, -=, f),
             });
             ctx.set_nontrivial(a.lo != 0.0 && f != 0.0);
             let m = a.big().abs().max(bf.abs());
@@ -674,15 +691,8 @@ fn c04_op(ctx: &mut Ctx, form: Form) {
             exact = a.big().mul(&b.big());
             zero_factor = a.hi == 0.0 || b.hi == 0.0;
             let (ta, tb) = (a.tf(), b.tf());
-            r = run_tf(ctx, opname, || {
-                if form == Form::TT {
-                    ta * tb
-                } else {
-                    let mut t = ta;
-                    t *= tb;
-                    t
-                }
-            });
+            let sp = spelling(ctx, a.hi, b.hi, a.lo);
+            r = run_tf(ctx, opname, || if form == Form::TT { spelled!(sp, ta, *, tb) } else { spelled_assign!(sp, ta, *=, tb) });
             ctx.set_nontrivial(a.lo != 0.0 && b.lo != 0.0);
             if same_dd(a, b) {
                 // squaring written with two references to the SAME object must give the same words
@@ -707,14 +717,11 @@ fn c04_op(ctx: &mut Ctx, form: Form) {
             exact = a.big().mul(&Big::from_f64(f));
             zero_factor = a.hi == 0.0 || f == 0.0;
             let ta = a.tf();
+            let sp = spelling(ctx, a.hi, f, a.lo);
             r = run_tf(ctx, opname, || match form {
-                Form::TF => ta * f,
-                Form::FT => f * ta,
-                _ => {
-                    let mut t = ta;
-                    t *= f;
-                    t
-                }
+                Form::TF => spelled!(sp, ta, *, f),
+                Form::FT => spelled!(sp, f, *, ta),
+                _ => spelled_assign!(sp, ta, *=, f),
             });
             ctx.set_nontrivial(a.lo != 0.0 && f != 0.0);
         }
@@ -881,15 +888,8 @@ fn c05_op(ctx: &mut Ctx, form: DForm) {
             num = a.big();
             den = b.big();
             let (ta, tb) = (a.tf(), b.tf());
-            r = run_tf(ctx, opname, || {
-                if form == DForm::TT {
-                    ta / tb
-                } else {
-                    let mut t = ta;
-                    t /= tb;
-                    t
-                }
-            });
+            let sp = spelling(ctx, a.hi, b.hi, a.lo);
+            r = run_tf(ctx, opname, || if form == DForm::TT { spelled!(sp, ta, /, tb) } else { spelled_assign!(sp, ta, /=, tb) });
             ctx.set_nontrivial(a.lo != 0.0 && b.lo != 0.0);
         }
         DForm::TF | DForm::AssignTF => {
@@ -906,15 +906,8 @@ fn c05_op(ctx: &mut Ctx, form: DForm) {
             num = a.big();
             den = Big::from_f64(f);
             let ta = a.tf();
-            r = run_tf(ctx, opname, || {
-                if form == DForm::TF {
-                    ta / f
-                } else {
-                    let mut t = ta;
-                    t /= f;
-                    t
-                }
-            });
+            let sp = spelling(ctx, a.hi, f, a.lo);
+            r = run_tf(ctx, opname, || if form == DForm::TF { spelled!(sp, ta, /, f) } else { spelled_assign!(sp, ta, /=, f) });
             ctx.set_nontrivial(a.lo != 0.0);
         }
         DForm::FT => {
@@ -927,7 +920,8 @@ fn c05_op(ctx: &mut Ctx, form: DForm) {
             num = Big::from_f64(f);
             den = b.big();
             let tb = b.tf();
-            r = run_tf(ctx, opname, || f / tb);
+            let sp = spelling(ctx, b.hi, f, b.lo);
+            r = run_tf(ctx, opname, || spelled!(sp, f, /, tb));
             ctx.set_nontrivial(b.lo != 0.0 && f != 0.0);
         }
         DForm::Recip => {
@@ -1207,20 +1201,14 @@ fn c19_op(ctx: &mut Ctx, form: RForm) {
         RForm::DivEuclid => "a.div_euclid(b)",
         RForm::RemEuclid => "a.rem_euclid(b)",
     };
+    let sp = spelling(ctx, a.hi, b.hi, a.lo + b.lo);
+    let (fa, fb) = (a.hi, b.hi);
     let r = run_tf(ctx, name, || match form {
-        RForm::TT => ta % tb,
-        RForm::TF => ta % b.hi,
-        RForm::FT => a.hi % tb,
-        RForm::AssignTT => {
-            let mut t = ta;
-            t %= tb;
-            t
-        }
-        RForm::AssignTF => {
-            let mut t = ta;
-            t %= b.hi;
-            t
-        }
+        RForm::TT => spelled!(sp, ta, %, tb),
+        RForm::TF => spelled!(sp, ta, %, fb),
+        RForm::FT => spelled!(sp, fa, %, tb),
+        RForm::AssignTT => spelled_assign!(sp, ta, %=, tb),
+        RForm::AssignTF => spelled_assign!(sp, ta, %=, fb),
         RForm::DivEuclid => crate::inh::div_euclid(ta, tb),
         RForm::RemEuclid => crate::inh::rem_euclid(ta, tb),
     });
